@@ -3,6 +3,7 @@ package websocket
 import (
 	"io"
 	"net"
+	"sync/atomic"
 	"time"
 )
 
@@ -21,6 +22,11 @@ type fakeConn struct {
 	failAt  int
 	failErr error
 	hook    func(p []byte) // called inside Write before the bytes are recorded (schedule point)
+	// deadlines: the transport honours write deadlines the way a net.Conn does: a deadline put on
+	// the connection while a Write without deadline is in progress applies to that Write, which is
+	// then cut short (modelled as expiring at once)
+	deadlines bool
+	wdl       int64 // current write deadline in ns since the epoch, 0 = none (atomic)
 }
 
 func newFakeConn(data []byte) *fakeConn { return &fakeConn{data: data, cut: -1, failAt: -1} }
@@ -53,8 +59,15 @@ func (c *fakeConn) Write(p []byte) (int, error) {
 		c.writes = append(c.writes, nil)
 		return 0, c.failErr
 	}
+	d0 := atomic.LoadInt64(&c.wdl)
 	if c.hook != nil {
 		c.hook(p)
+	}
+	if c.deadlines && d0 == 0 && atomic.LoadInt64(&c.wdl) != 0 {
+		cp := append([]byte(nil), p[:len(p)/2]...)
+		c.writes = append(c.writes, cp)
+		c.wire = append(c.wire, cp...)
+		return len(cp), &netError{msg: "i/o timeout (deadline set during the write)", timeout: true}
 	}
 	cp := append([]byte(nil), p...)
 	c.writes = append(c.writes, cp)
@@ -67,7 +80,14 @@ func (c *fakeConn) LocalAddr() net.Addr                { return nil }
 func (c *fakeConn) RemoteAddr() net.Addr               { return nil }
 func (c *fakeConn) SetDeadline(t time.Time) error      { return nil }
 func (c *fakeConn) SetReadDeadline(t time.Time) error  { return nil }
-func (c *fakeConn) SetWriteDeadline(t time.Time) error { return nil }
+func (c *fakeConn) SetWriteDeadline(t time.Time) error {
+	if t.IsZero() {
+		atomic.StoreInt64(&c.wdl, 0)
+	} else {
+		atomic.StoreInt64(&c.wdl, t.UnixNano())
+	}
+	return nil
+}
 
 // ---------------------------------------------------------------------------------------
 // Independent RFC 6455 frame parser (sections 5.2, 5.5) over captured wire bytes.
